@@ -12,6 +12,8 @@
    disappears when the owner goes away.
 
    Bug = "acceptAny"    re-creates the tree as found (D6): the request is resolved with whatever link came back.
+   Bug = "alreadyNil"   re-creates the tree as found (D24): a request that finds the address already linked to its target reports
+                        success without a link, and the request is never satisfied.
    Bug = "dialerTarget" re-creates a plausible refactor: the check is made by the shared dialer against the target of the
                         request that created it, so a joined request for another peer is resolved with that link. *)
 EXTENDS Naturals, FiniteSets, TLC
@@ -34,10 +36,12 @@ Start(r) == st[r] = "idle" /\ st' = [st EXCEPT ![r] = "trying"] /\ UNCHANGED <<o
 \* DialPeer entry: CheckAlreadyConnected, then create or join the dialer of the address
 Enter(r) ==
   /\ st[r] = "trying"
-  /\ IF linkAt # "" /\ linkAt # Target[r] THEN st' = [st EXCEPT ![r] = "backoff"] /\ UNCHANGED creator   \* connected to a different peer: error
-     ELSE IF linkAt # "" THEN UNCHANGED <<st, creator>>                                                  \* already connected to the target: nothing to dial
-     ELSE st' = [st EXCEPT ![r] = "joined"] /\ creator' = (IF creator = "none" THEN r ELSE creator)
-  /\ UNCHANGED <<owner, changes, result, linkAt>>
+  /\ IF linkAt # "" /\ linkAt # Target[r] THEN st' = [st EXCEPT ![r] = "backoff"] /\ UNCHANGED <<creator, result>>   \* connected to a different peer: error
+     ELSE IF linkAt # "" THEN                                                                            \* already connected to the target: that link is the result
+          IF Bug = "alreadyNil" THEN UNCHANGED <<st, creator, result>>                                  \* (as found, D24: success without a link, the request waits forever)
+          ELSE st' = [st EXCEPT ![r] = "done"] /\ result' = [result EXCEPT ![r] = linkAt] /\ UNCHANGED creator
+     ELSE st' = [st EXCEPT ![r] = "joined"] /\ creator' = (IF creator = "none" THEN r ELSE creator) /\ UNCHANGED result
+  /\ UNCHANGED <<owner, changes, linkAt>>
 Accepts(r, who) == \/ who = Target[r]
                    \/ Bug = "acceptAny"
                    \/ (Bug = "dialerTarget" /\ who = Target[creator])
@@ -54,9 +58,9 @@ Attempt ==
   /\ UNCHANGED <<owner, changes>>
 Retry(r) == st[r] = "backoff" /\ st' = [st EXCEPT ![r] = "trying"] /\ UNCHANGED <<owner, changes, result, creator, linkAt>>
 Next == OwnerChanges \/ Attempt \/ \E r \in Req : Start(r) \/ Enter(r) \/ Retry(r)
-Spec == Init /\ [][Next]_vars /\ WF_vars(Attempt) /\ \A r \in Req : WF_vars(Start(r)) /\ WF_vars(Retry(r)) /\ SF_vars(Enter(r) /\ st'[r] = "joined")
+Spec == Init /\ [][Next]_vars /\ WF_vars(Attempt) /\ \A r \in Req : WF_vars(Start(r)) /\ WF_vars(Retry(r)) /\ SF_vars(Enter(r) /\ st'[r] \in {"joined", "done"})
 \* C05
 DialSound == \A r \in Req : st[r] = "done" => result[r] = Target[r]
 \* once the target owns the address for good and no link to someone else blocks it, the request is eventually satisfied
-DialLive == \A r \in Req : (<>[](owner = Target[r] /\ linkAt \in {"", Target[r]})) => <>(st[r] = "done" \/ linkAt = Target[r])
+DialLive == \A r \in Req : (<>[](owner = Target[r] /\ linkAt \in {"", Target[r]})) => <>(st[r] = "done")
 =============================================================================
